@@ -43,7 +43,7 @@ Definition composes (o : op) : bool :=
   | _ => false
   end.
 Definition ent_nonempty (e : str * rent nat) : bool :=
-  match snd e with RCall d => Nat.ltb 0 (def_size d) | RObj _ => false end.
+  match snd e with RCall d => Nat.ltb 0 (def_size d) | RSeq ds => existsb (fun d => Nat.ltb 0 (def_size d)) ds | RObj _ => false end.
 
 (* format, operand pipelines, resolver table (identifier -> operand index | definition of a callable
    or YAML file), backend pipeline, output-format pipeline, rules, history, implementation's result *)
